@@ -305,6 +305,13 @@ MUTANTS = [
      [("src/yaml/encoding.rs", "\t\t\tOk(n) => filled += n,", "\t\t\tOk(n) => filled = n,")]),
     ("e07-fill-stops-one-short", "violations", "E07", "C07", "R07.8", "the hand-written read_exact stops one byte early",
      [("src/yaml/encoding.rs", "\twhile filled < unit.len() {", "\twhile filled + 1 < unit.len() {")]),
+    # ---- round 19: on top of type / signature ripples done right
+    ("f07-lead-range-too-wide", "violations", "F07", "C07", "R07.5", "the classifying constructor calls 0xDC00..=0xDCFF leading surrogates as well: the payload the decoder trusts is no longer 10 bits",
+     [("src/yaml/encoding.rs", "\t\t\t0xD800..=0xDBFF => Self::Lead(unit),\n\t\t\t0xDC00..=0xDFFF => Self::Trail(unit),", "\t\t\t0xD800..=0xDCFF => Self::Lead(unit),\n\t\t\t0xDD00..=0xDFFF => Self::Trail(unit),")]),
+    ("f07-surrogate-as-scalar", "violations", "F07", "C17", "R07.3", "the classifying constructor lets 0xDFFF through as a scalar: an invalid char is made by the unchecked conversion",
+     [("src/yaml/encoding.rs", "\t\t\t0xDC00..=0xDFFF => Self::Trail(unit),", "\t\t\t0xDC00..=0xDFFE => Self::Trail(unit),")]),
+    ("f08-claim-does-not-mark", "violations", "F08", "C08", "R08.1", "the test-and-set helper reads the state without marking the output as used",
+     [("src/toml.rs", "\t\tmem::replace(&mut self.usage, Usage::Spent)", "\t\tself.usage")]),
     ("r48-stash-ignored", "violations", "R48", "C12", "R12.2", "the reader's own error is discarded in favour of libyaml's",
      [("src/yaml/chunker/parser.rs", "Some(read_err) => read_err,", "Some(_) => io::Error::new(io::ErrorKind::InvalidData, \"read failed\"),")]),
     ("r49-scratch-tail", "violations", "R49", "C07", "R07.7", "remainder taken from the whole scratch array",
